@@ -56,7 +56,18 @@ func c18Cond(r *core.Rand, quals []string) string {
 func c18Statement(r *core.Rand, g *gen.StmtGen) (string, string) {
 	t := pick(r, c18Tables)
 	col := func() string { return pick(r, c18Cols) }
-	switch r.Intn(24) {
+	switch r.Intn(26) {
+	case 24:
+		// names no file system or catalog column takes: very long, path
+		// separators, dot names, a NUL byte, the empty name
+		long := strings.Repeat("n", []int{255, 256, 300, 5000}[r.Intn(4)])
+		name := pick(r, []string{long, long, `"a/b"`, `".."`, `"."`, "\"a\x00b\"", `""`, `"x` + long + `"`, `" "`})
+		return fmt.Sprintf(pick(r, []string{"CREATE DATABASE %s", "USE %s", "CREATE TABLE %s (a int)", "SELECT * FROM %s", "INSERT INTO %s VALUES (1)", "CREATE TABLE nt5 (%s int)", "SELECT %s FROM t1", "DELETE FROM %s", "UPDATE %s SET i = 1"}), name), "hostile_names"
+	case 25:
+		// LIMIT / OFFSET at the edge of 64 bits, alone and together
+		big := pick(r, []string{"9223372036854775807", "9223372036854775806", "4611686018427387904", "2147483648"})
+		tail := pick(r, []string{"LIMIT " + big + " OFFSET 1", "LIMIT " + big + " OFFSET " + big, "OFFSET " + big + " LIMIT 1", "LIMIT " + big, "OFFSET " + big, "LIMIT 2 OFFSET " + big, "OFFSET 2 LIMIT " + big})
+		return fmt.Sprintf(pick(r, []string{"SELECT * FROM %s %s", "SELECT * FROM %s ORDER BY i %s", "SELECT count(*) FROM %s %s", "SELECT i, count(*) FROM %s GROUP BY i %s"}), t, tail), "limit_offset_extremes"
 	case 0:
 		return fmt.Sprintf("SELECT %s(%s) FROM %s", pick(r, []string{"avg", "count"}), col(), t), "aggregate"
 	case 1:
@@ -116,7 +127,7 @@ func c18Statement(r *core.Rand, g *gen.StmtGen) (string, string) {
 }
 
 func checkC18(c *core.Ctx) []core.Floor {
-	c.Rule = "sessions in four states (no USE; after a failed USE; database selected; failed USE after a successful one) executing statements from type-confused families over tables with all four column types, NULLs in every nullable column and an empty table: AVG/COUNT over every type and over NULLs, ORDER BY over NULL-bearing columns, comparisons between every pair of types and with NULL-padded join sides, bare columns/literals as conditions, missing / ambiguous / duplicated columns and aliases, GROUP BY on other columns, INSERT with wrong arity / unknown / repeated columns / empty VALUES, UPDATE from a column, DDL and database statements, plus random statements from the C10 grammar over the same names. Monitor: recover() around Session.ExecQuery in a child process (a dead child names its statement); wall-clock watchdog only as inconclusive. One case in eleven runs against the REAL 100 ms flush goroutine instead: multi-row INSERT, UPDATE, DELETE, CREATE TABLE and SELECTs (valid and type-confused) on a cold or warm cache, each held open by a sleep of 2-3 timer periods at its first cache miss, its second page change or inside its log append, so that a flush request is pending while the statement goes on; a script that does not finish is run a second time on its own with a 120 s allowance, and only if it stops at the same statement again is that reported as a hang. Distinct = (session state, statement text); non-trivial = the statement parsed (it reached execution)."
+	c.Rule = "sessions in four states (no USE; after a failed USE; database selected; failed USE after a successful one) executing statements from type-confused families over tables with all four column types, NULLs in every nullable column and an empty table: AVG/COUNT over every type and over NULLs, ORDER BY over NULL-bearing columns, comparisons between every pair of types and with NULL-padded join sides, bare columns/literals as conditions, missing / ambiguous / duplicated columns and aliases, GROUP BY on other columns, LIMIT/OFFSET at the edge of 64 bits, database / table / column names no file system takes (255-5000 characters, path separators, dot names, NUL, empty), INSERT with wrong arity / unknown / repeated columns / empty VALUES, UPDATE from a column, DDL and database statements, plus random statements from the C10 grammar over the same names. Monitor: recover() around Session.ExecQuery in a child process (a dead child names its statement); wall-clock watchdog only as inconclusive. One case in eleven runs against the REAL 100 ms flush goroutine instead: multi-row INSERT, UPDATE, DELETE, CREATE TABLE and SELECTs (valid and type-confused) on a cold or warm cache, each held open by a sleep of 2-3 timer periods at its first cache miss, its second page change or inside its log append, so that a flush request is pending while the statement goes on; a script that does not finish is run a second time on its own with a 120 s allowance, and only if it stops at the same statement again is that reported as a hang. Distinct = (session state, statement text); non-trivial = the statement parsed (it reached execution)."
 	c.Assume = []string{"any result or error value is acceptable; only panics, process death and hangs are judged"}
 	drv := mustDriver(c, false)
 	n := 600
